@@ -50,6 +50,7 @@ def make_case(seed, i):
         cfg.imports = rng.randint(1, 2)
     targets = [t for t in ("cpp", "python", "json", "matlab") if rng.chance(0.55)] or ["python"]
     pkg = M.gen_package(rng.next(), cfg, targets=targets)
+    M.randomize_target_options(pkg, rng.fork("options"))
     has_versions = rng.chance(0.25)
     if has_versions:
         pkg = E.with_versions(pkg, rng.fork("v"), rng.randint(1, 2), partial=rng.chance(0.5), layout=rng.fork("vlayout").choice(["siblings", "archive"]))
@@ -168,8 +169,9 @@ def make_case(seed, i):
                 opts.append("restore_target")
             if state.versions:
                 opts.append("drop_versions")
-            if "python" in state.targets or "cpp" in state.targets:
-                opts.append("toggle_ndjson")
+            flags = [(t, f) for t in sorted(state.targets) for f in M.TARGET_FLAGS.get(t, [])]
+            if flags:
+                opts += ["toggle_option", "toggle_option"]
             # the package's own directory listed as a version under a second name ("../pkg"): the same directory is then
             # both the watched "." and a referenced package directory
             opts.append("drop_self_version" if state.self_version else "self_version")
@@ -191,10 +193,11 @@ def make_case(seed, i):
             elif op == "drop_versions":
                 state.versions = []
                 kinds_main = E.COMPATIBLE + E.PARTIAL + E.FREE
-            elif op == "toggle_ndjson":
-                t = "python" if "python" in state.targets else "cpp"
-                cur_v = state.targets[t].get("generateNDJson", True)
-                state.targets[t] = dict(state.targets[t], generateNDJson=not cur_v)
+            elif op == "toggle_option":
+                t, f = r.choice(flags)
+                cur_v = state.targets[t].get(f, True)
+                state.targets[t] = dict(state.targets[t], **{f: not cur_v})
+                op = "toggle %s.%s -> %s" % (t, f, not cur_v)
             log.append("manifest: " + op)
         elif kind == "break_repair":
             mfs = model_files_recursive(cur)
